@@ -1,4 +1,5 @@
 import BlockCiphers.Proofs.Xtea
+import BlockCiphers.Proofs.Rc5SpeckC01
 /-
 C01 — decryption inverts encryption.  ONLY property theorems and non-vacuity examples live here.
 One theorem per cipher model; `Thm.C01` grows with the list of models (the registry entries that are
@@ -10,5 +11,16 @@ namespace BC.Thm.C01
 theorem xtea_dec_enc (key : BitVec 128) (b : BitVec 64) :
     Xtea.decrypt (Xtea.keyOfBits key) (Xtea.encrypt (Xtea.keyOfBits key) b) = b :=
   Xtea.decrypt_encrypt _ b
+
+/-- RC5: every `RC5<W,R,B>` (any word size that is a multiple of 8 bits, any rounds, any key length): a key of the
+accepted length yields an instance whose `dec` inverts its `enc` and vice versa on every block. -/
+theorem rc5_round_trip (w r b : Nat) (hw : w % 8 = 0) (key : Bytes) (hk : key.length = b) :
+    Models.RoundTrips (Models.Rc5.mk w r b) key :=
+  Models.rc5_mk_roundTrips w r b hw key hk
+
+/-- the ten Speck types -/
+theorem speck_round_trip : ∀ p ∈ BC.Speck.all, ∀ key : Bytes, key.length = p.keyBytes →
+    Models.RoundTrips (Models.Speck.mk p) key :=
+  Models.speck_mk_roundTrips
 
 end BC.Thm.C01
